@@ -69,6 +69,12 @@ func c10Authentic(pk *gabikeys.PublicKey, sacc *SignedAccumulator, events []*Eve
 	if len(events) == 0 {
 		return &acc, ""
 	}
+	// the first event's parent is not part of the message: its parent hash can only be checked for being
+	// a hash at all (multihash: code 0x12 = SHA2-256, length 0x20, 32 digest bytes) - anything else in
+	// that field is extra material under the event's own hash
+	if ph := events[0].ParentHash; len(ph) != 34 || ph[0] != 0x12 || ph[1] != 0x20 {
+		return nil, fmt.Sprintf("first event's parent hash is not a well-formed SHA2-256 multihash (%d bytes)", len(ph))
+	}
 	for i, e := range events {
 		if e == nil || e.E == nil {
 			return nil, "nil event"
@@ -162,6 +168,22 @@ func c10Corruptions(world, other *rvWorld, base *Update) []c10Cor {
 			u.Events = u.Events[:n-1]
 			u.SignedAccumulator.Accumulator = &older
 		})
+	}
+	// the event hash covers index || parent hash || E without length framing: bytes moved from the front of
+	// E to the end of the parent hash leave every hash of the chain unchanged
+	for i := 0; i < n; i++ {
+		i := i
+		for _, kb := range []int{1, 2} {
+			kb := kb
+			add("byte-shift", fmt.Sprintf("top %d byte(s) of E[%d] moved to the end of its parent hash", kb, i), false, func(u *Update) {
+				eb := u.Events[i].E.Bytes()
+				if len(eb) <= kb {
+					panic("E too short")
+				}
+				u.Events[i].ParentHash = append(append(Hash{}, u.Events[i].ParentHash...), eb[:kb]...)
+				u.Events[i].E = new(big.Int).SetBytes(eb[kb:])
+			})
+		}
 	}
 	for i := 0; i < n; i++ {
 		i := i
